@@ -50,8 +50,8 @@ PROFILE_NS = gen.profile(**dict(PROFILE_KW, p_nestedsync=0.12, w_stmt=dict(raise
 MONITORS = ("resume", "afterdone", "order", "orphans", "completion", "refeq")
 HOWS = ["call", "value", "yielded", "yielded_value"]
 
-DEEP_QUICK = [("chain", 20000), ("chain_item", 1500), ("fan", 10000), ("chain_struct", 5000), ("fan_item", 3000), ("comb", 300), ("ladder", 30), ("ladder", 400)]
-DEEP_THOROUGH = DEEP_QUICK + [("ladder", 60), ("ladder", 3000), ("chain", 100000), ("chain", 250000), ("chain_item", 4000), ("fan", 60000), ("chain_struct", 50000), ("comb", 1500)]
+DEEP_QUICK = [("chain", 20000), ("chain_item", 1500), ("fan", 10000), ("chain_struct", 5000), ("fan_item", 3000), ("comb", 300), ("ladder", 30), ("ladder", 400), ("ladder_ctx", 14), ("ladder_ctx", 60)]
+DEEP_THOROUGH = DEEP_QUICK + [("ladder", 60), ("ladder", 3000), ("ladder_ctx", 400), ("chain", 100000), ("chain", 250000), ("chain_item", 4000), ("fan", 60000), ("chain_struct", 50000), ("comb", 1500)]
 
 
 def _shrunk(prog, how, pol, cs, oracle):
@@ -236,6 +236,14 @@ def run_deep(unit, progress):
         return got[0] + 1
 
     ladder_tasks = {}
+    ctx_calls = [0]
+
+    class LadderCtx(asynq.AsyncContext):
+        def resume(self):
+            ctx_calls[0] += 1
+
+        def pause(self):
+            ctx_calls[0] += 1
 
     @A()
     def rung(level, side):
@@ -245,7 +253,12 @@ def run_deep(unit, progress):
             return 1
         a = ladder_get(level + 1, 0)
         b = ladder_get(level + 1, 1)
-        got = yield a, b
+        if shape == "ladder_ctx":
+            # every rung waits inside a context of its own (paused and resumed around its suspensions)
+            with LadderCtx():
+                got = yield a, b
+        else:
+            got = yield a, b
         if not (a.is_computed() and b.is_computed()):
             bad.append(("resumed-while-uncomputed", level))
         return (got[0] + got[1]) % 1000003
@@ -258,13 +271,16 @@ def run_deep(unit, progress):
 
     rt.attach()
     try:
-        if shape == "ladder":
+        if shape in ("ladder", "ladder_ctx"):
             runs = [0] * (2 * n + 4)
             v = ladder_get(0, 0).value()
             flushes = sum(1 for e in rt.log if e[0] == "flush_body")
             started = sum(runs)
             ok = flushes == 1 and started == 2 * n + 1 and all(r <= 1 for r in runs) and all(t.is_computed() for t in ladder_tasks.values() if t is not ladder_tasks.get((0, 1)))
-            detail = {"value": v, "flushes": flushes, "bodies_started": started, "tasks": 2 * n + 1}
+            detail = {"value": v, "flushes": flushes, "bodies_started": started, "tasks": 2 * n + 1, "context_callbacks": ctx_calls[0]}
+            if shape == "ladder_ctx" and ctx_calls[0] > 40 * (n + 2) * (n + 2):
+                # (pause/resume pairs may repeat when a shared rung is reached again, but not without bound)
+                ok = False
         elif shape == "chain":
             v = chain(n)
             ok = v == n and all(r == 1 for r in runs[: n + 1])
